@@ -98,7 +98,7 @@ func c19List(r *core.Result, vals []banderwagon.Element, block []int, desc strin
 	}
 	// batch normalisation
 	var nerr error
-	if !guard(r, "c19.panic", "banderwagon.BatchNormalize", desc, func() { nerr = banderwagon.BatchNormalize(els) }) {
+	if !timed(r, "c19.panic", "banderwagon.BatchNormalize", desc, func() { nerr = banderwagon.BatchNormalize(els) }) {
 		return
 	}
 	if nerr != nil {
